@@ -1,5 +1,6 @@
 --------------------------- MODULE MC_Ledger_goalS ---------------------------
 \* repeated slashing of pending undelegation records (two slash ids)
 EXTENDS MC_Ledger_q
-c_WANTED == {"slash_caps_reduced_record", "slash_two_records", "slash_record_started_at_infraction_height"}
+c_WANTED == {"slash_caps_reduced_record", "slash_two_records", "slash_record_started_at_infraction_height",
+             "slash_record_started_after_infraction_height"}
 =============================================================================
